@@ -8,6 +8,8 @@ behaviour by construction:
   T4  every `if c: A else: B` with both branches non-empty becomes `if not c: B else: A`
   T5  `x = a if c else b` (statement level) becomes an if/else statement
   T6  a repeated, never-stored attribute path self.<name> / stage._method is cached in a fresh local at the top of the function
+  T7  Base.m(self, ..) -> super().m(..) in a method of a class whose only base is Base
+  T8  runs of `self.a = None; self.b = None` -> a setattr loop over a tuple of names
 Any alarm is a false alarm of the checker (or a bug of this tool - check the diff it prints).
 
 usage: auto_refactor.py Cxx [T1,T4,..] [max_functions]
@@ -146,7 +148,179 @@ def t6_cache(fnode):
     return True
 
 
-TRANSFORMS = {"T1": t1_rename, "T4": t4_swap, "T5": t5_unfold, "T6": t6_cache}
+_CUR_CLASS = [None]
+
+
+def t7_super(fnode):
+    """Base.m(self, a, ..) -> super().m(a, ..) inside a method of a class whose only base is Base"""
+    cls = _CUR_CLASS[0]
+    if cls is None or len(cls.bases) != 1 or not isinstance(cls.bases[0], ast.Name) or not fnode.args.args:
+        return False
+    base, me = cls.bases[0].id, fnode.args.args[0].arg
+    if any(isinstance(d, ast.Name) and d.id in ("staticmethod", "classmethod") for d in fnode.decorator_list):
+        return False
+    n_ = 0
+    for c in ast.walk(fnode):
+        if isinstance(c, ast.Call) and isinstance(c.func, ast.Attribute) and isinstance(c.func.value, ast.Name) and c.func.value.id == base \
+                and c.args and isinstance(c.args[0], ast.Name) and c.args[0].id == me:
+            # only at the top level of the method (super() without arguments does not work in nested functions/comprehensions)
+            c.func.value = ast.Call(func=ast.Name(id="super", ctx=ast.Load()), args=[], keywords=[])
+            c.args = c.args[1:]
+            n_ += 1
+    nested = [x for x in ast.walk(fnode) if isinstance(x, (ast.FunctionDef, ast.Lambda, ast.ListComp, ast.GeneratorExp, ast.DictComp, ast.SetComp)) and x is not fnode]
+    if any(isinstance(y, ast.Call) and isinstance(y.func, ast.Name) and y.func.id == "super" for x in nested for y in ast.walk(x)):
+        return False
+    return n_ > 0
+
+
+def t8_table(fnode):
+    """runs of >= 2 consecutive `self.a = CONST` with one immutable constant -> for name in ('a', ..): setattr(self, name, CONST)"""
+    if not fnode.args.args:
+        return False
+    me = fnode.args.args[0].arg
+    changed = [0]
+
+    def is_const_assign(st):
+        return isinstance(st, ast.Assign) and len(st.targets) == 1 and isinstance(st.targets[0], ast.Attribute) and isinstance(st.targets[0].value, ast.Name) \
+            and st.targets[0].value.id == me and isinstance(st.value, ast.Constant) and (st.value.value is None or isinstance(st.value.value, (bool, int, float, str)))
+
+    def rec(lst):
+        out, i = [], 0
+        while i < len(lst):
+            st = lst[i]
+            if is_const_assign(st):
+                j = i
+                while j + 1 < len(lst) and is_const_assign(lst[j + 1]) and ast.dump(lst[j + 1].value) == ast.dump(st.value):
+                    j += 1
+                if j > i:
+                    names = ast.Tuple(elts=[ast.Constant(value=x.targets[0].attr) for x in lst[i:j + 1]], ctx=ast.Load())
+                    call = ast.Expr(value=ast.Call(func=ast.Name(id="setattr", ctx=ast.Load()), args=[ast.Name(id=me, ctx=ast.Load()), ast.Name(id="attr_name_", ctx=ast.Load()), st.value], keywords=[]))
+                    out.append(ast.For(target=ast.Name(id="attr_name_", ctx=ast.Store()), iter=names, body=[call], orelse=[]))
+                    changed[0] += 1
+                    i = j + 1
+                    continue
+            for fld in ("body", "orelse", "finalbody"):
+                if hasattr(st, fld) and isinstance(getattr(st, fld), list) and not isinstance(st, (ast.FunctionDef, ast.ClassDef)):
+                    setattr(st, fld, rec(getattr(st, fld)))
+            out.append(st)
+            i += 1
+        return out
+    fnode.body = rec(fnode.body)
+    return changed[0] > 0
+
+
+def _stmt_lists(fnode):
+    """every statement list of the function (not of nested functions/classes)"""
+    out = []
+    def rec(lst):
+        out.append(lst)
+        for st in lst:
+            if isinstance(st, (ast.FunctionDef, ast.ClassDef)):
+                continue
+            for fld in ("body", "orelse", "finalbody"):
+                if hasattr(st, fld) and isinstance(getattr(st, fld), list):
+                    rec(getattr(st, fld))
+            if isinstance(st, ast.Try):
+                for h in st.handlers:
+                    rec(h.body)
+    rec(fnode.body)
+    return out
+
+
+def t9_enumerate(fnode):
+    """for x in L -> for unused_i_, x in enumerate(L)"""
+    n_ = 0
+    for lst in _stmt_lists(fnode):
+        for st in lst:
+            if isinstance(st, ast.For) and not (isinstance(st.iter, ast.Call) and isinstance(st.iter.func, ast.Name) and st.iter.func.id in ("enumerate", "zip", "range")):
+                st.target = ast.Tuple(elts=[ast.Name(id="unused_i_", ctx=ast.Store()), st.target], ctx=ast.Store())
+                st.iter = ast.Call(func=ast.Name(id="enumerate", ctx=ast.Load()), args=[st.iter], keywords=[])
+                n_ += 1
+    return n_ > 0
+
+
+def t10_comp_to_loop(fnode):
+    """x = [e for v in L (if c)] at statement level (single generator) -> x = []; for v in L: (if c:) x.append(e)"""
+    n_ = 0
+    for lst in _stmt_lists(fnode):
+        i = 0
+        while i < len(lst):
+            st = lst[i]
+            if isinstance(st, ast.Assign) and len(st.targets) == 1 and isinstance(st.targets[0], ast.Name) and isinstance(st.value, ast.ListComp) and len(st.value.generators) == 1 \
+                    and not st.value.generators[0].is_async:
+                g = st.value.generators[0]
+                x = st.targets[0].id
+                # the target must not occur in the comprehension itself
+                if not any(isinstance(y, ast.Name) and y.id == x for y in ast.walk(st.value)):
+                    app = ast.Expr(value=ast.Call(func=ast.Attribute(value=ast.Name(id=x, ctx=ast.Load()), attr="append", ctx=ast.Load()), args=[st.value.elt], keywords=[]))
+                    body = [app]
+                    for c in reversed(g.ifs):
+                        body = [ast.If(test=c, body=body, orelse=[])]
+                    lst[i:i + 1] = [ast.Assign(targets=[ast.Name(id=x, ctx=ast.Store())], value=ast.List(elts=[], ctx=ast.Load())), ast.For(target=g.target, iter=g.iter, body=body, orelse=[])]
+                    n_ += 1
+                    i += 1
+            i += 1
+    return n_ > 0
+
+
+def t12_flip_eq(fnode):
+    """x == CONST -> CONST == x (yoda form) in test positions (Python truth values; a symbolic relation is never flipped)"""
+    n_ = 0
+    simple = lambda e: isinstance(e, (ast.Name, ast.Attribute, ast.Constant))
+    tests = [x.test for x in ast.walk(fnode) if isinstance(x, (ast.If, ast.IfExp, ast.While, ast.Assert))]
+    for c in [y for t in tests for y in ast.walk(t)]:
+        if isinstance(c, ast.Compare) and len(c.ops) == 1 and isinstance(c.ops[0], (ast.Eq, ast.NotEq)) and simple(c.left) and isinstance(c.comparators[0], ast.Constant) and not isinstance(c.left, ast.Constant):
+            c.left, c.comparators = c.comparators[0], [c.left]
+            n_ += 1
+    return n_ > 0
+
+
+def _always_leaves(body):
+    return bool(body) and isinstance(body[-1], (ast.Return, ast.Raise, ast.Continue, ast.Break))
+
+
+def t13_else_after_return(fnode):
+    """if c: ...; return X  <rest>   ->   if c: ...; return X  else: <rest>"""
+    n_ = 0
+    for lst in _stmt_lists(fnode):
+        for i, st in enumerate(lst):
+            if isinstance(st, ast.If) and not st.orelse and _always_leaves(st.body) and i + 1 < len(lst):
+                st.orelse = lst[i + 1:]
+                del lst[i + 1:]
+                n_ += 1
+                break
+    return n_ > 0
+
+
+def t18_guard_clause(fnode):
+    """a function body ending in `if c: A` (no else, A does not end in return) -> `if not c: return` ; A"""
+    lst = fnode.body
+    if lst and isinstance(lst[-1], ast.If) and not lst[-1].orelse and not any(isinstance(x, (ast.Yield, ast.YieldFrom)) for x in ast.walk(fnode)):
+        st = lst[-1]
+        lst[-1:] = [ast.If(test=ast.UnaryOp(op=ast.Not(), operand=st.test), body=[ast.Return(value=None)], orelse=[])] + st.body
+        return True
+    return False
+
+
+def t19_temp_arg(fnode):
+    """f(.., g(x), ..) as an expression statement, first argument that is itself a call -> tmp_arg_ = g(x); f(.., tmp_arg_, ..)  (only when it is the first argument: evaluation order)"""
+    n_ = 0
+    for lst in _stmt_lists(fnode):
+        i = 0
+        while i < len(lst):
+            st = lst[i]
+            if isinstance(st, ast.Expr) and isinstance(st.value, ast.Call) and st.value.args and isinstance(st.value.args[0], ast.Call) and isinstance(st.value.func, (ast.Name, ast.Attribute)) \
+                    and all(isinstance(x, (ast.Name, ast.Attribute)) for x in ast.walk(st.value.func) if isinstance(x, ast.expr) and not isinstance(x, ast.expr_context)):
+                name = "tmp_arg_%d" % n_
+                lst.insert(i, ast.Assign(targets=[ast.Name(id=name, ctx=ast.Store())], value=st.value.args[0]))
+                st.value.args[0] = ast.Name(id=name, ctx=ast.Load())
+                n_ += 1
+                i += 1
+            i += 1
+    return n_ > 0
+
+
+TRANSFORMS = {"T9": t9_enumerate, "T10": t10_comp_to_loop, "T12": t12_flip_eq, "T13": t13_else_after_return, "T18": t18_guard_clause, "T19": t19_temp_arg, "T1": t1_rename, "T4": t4_swap, "T5": t5_unfold, "T6": t6_cache, "T7": t7_super, "T8": t8_table}
 
 
 def run_one(task):
@@ -165,6 +339,7 @@ def run_one(task):
                 for m in n.body:
                     if isinstance(m, ast.FunctionDef) and m.name == parts[1]:
                         target = m
+                        _CUR_CLASS[0] = n
             elif len(parts) == 1 and isinstance(n, ast.FunctionDef) and n.name == parts[0]:
                 target = n
         if target is None:
